@@ -35,9 +35,11 @@ type Input struct {
 }
 
 type StorStep struct {
-	K      string        `json:"k"` // put | wb | evict
+	K      string        `json:"k"` // put | wb | evict | restart (Close + New in the middle)
 	Stacks []treeu.Stack `json:"stacks,omitempty"`
 	Cache  string        `json:"cache,omitempty"` // evict: dicts | trees
+	// put: the only names the dictionary has not seen are strict prefixes of names it has (pure node splits)
+	PrefixOnly bool `json:"prefix_only,omitempty"`
 }
 
 // the caller's reused buffer (Reuse mode)
@@ -123,7 +125,7 @@ func runStor(in Input) (res lib.Result) {
 	defer st.Destroy()
 	key, _ := storage.ParseKey("c12.app{}")
 	var all []treeu.Stack
-	slot, wbs, evicts, putsAfterWB, newNamesAfterWB := 0, 0, 0, 0, 0
+	slot, wbs, evicts, putsAfterWB, newNamesAfterWB, restarts, prefixOnly := 0, 0, 0, 0, 0, 0, 0
 	seen := map[string]bool{}
 	for _, step := range in.Stor {
 		switch step.K {
@@ -135,6 +137,9 @@ func runStor(in Input) (res lib.Result) {
 				return lib.Result{Crash: "Put failed: " + err.Error()}
 			}
 			all = append(all, step.Stacks...)
+			if step.PrefixOnly {
+				prefixOnly++
+			}
 			if wbs > 0 {
 				putsAfterWB++
 			}
@@ -154,6 +159,11 @@ func runStor(in Input) (res lib.Result) {
 		case "evict":
 			st.S.VerifEvict(step.Cache, 1)
 			evicts++
+		case "restart":
+			if err := st.Reopen(); err != nil {
+				return lib.Result{Crash: "Close/New failed: " + err.Error()}
+			}
+			restarts++
 		}
 	}
 	render := func() string {
@@ -168,12 +178,12 @@ func runStor(in Input) (res lib.Result) {
 		return lib.Result{Crash: "Close/New failed: " + err.Error()}
 	}
 	after := render()
-	coq := "{| c_ops := []; c_obs := []; c_stor := (Some {| sr_stacks := " + treeu.CoqStacks(all) + "; sr_before := " + before +
+	coq := "{| c_ops := []; c_obs := []; c_stor := (Some {| sr_stacks := " + treeu.CoqStacks(all) + "; sr_writeback := " + lib.Bool(wbs > 0) + "; sr_before := " + before +
 		"; sr_after := " + after + " |}) |}"
 	return lib.Result{
 		Coq:        coq,
-		NonTrivial: newNamesAfterWB > 0,
-		Feat: map[string]interface{}{"stream": "storage", "writeback_ticks": wbs, "evictions": evicts, "puts_after_writeback": putsAfterWB,
+		NonTrivial: newNamesAfterWB > 0 || prefixOnly > 0,
+		Feat: map[string]interface{}{"stream": "storage", "writeback_ticks": wbs, "evictions": evicts, "puts_after_writeback": putsAfterWB, "restarts_in_between": restarts, "prefix_only_uploads": prefixOnly,
 			"new_names_after_writeback_class": bigClass(newNamesAfterWB * 100)},
 	}
 }
@@ -289,7 +299,7 @@ func run(in Input) lib.Result {
 		NonTrivial: splits >= 1 && puts >= 2,
 		Feat: map[string]interface{}{"splits": splits, "reloads": reloads, "probes": probes, "puts": puts,
 			"max_name_len_class": lenClass(maxLen), "repeated_names": repeats, "reload_after_split": reloadAfterSplit,
-			"caller_buffer_reused": in.Reuse, "trie_depth_class": bigDepth(depthOf(d.VerifDump())), "batched_puts_class": bigClass(batched), "max_serialized_4k_pages": maxSer / 4096},
+			"caller_buffer_reused": in.Reuse, "trie_depth_class": bigDepth(depthOf(d.VerifDump())), "root_children_256": len(d.VerifDump().Children) >= 256, "batched_puts_class": bigClass(batched), "max_serialized_4k_pages": maxSer / 4096},
 		Crash: crash,
 	}
 }
@@ -436,6 +446,38 @@ func genStor(r *rand.Rand) Input {
 		}
 	}
 	put(true)
+	if r.Intn(2) == 0 {
+		// the dictionary is clean (saved by the second write-back tick, or just reloaded), then ONE upload arrives whose
+		// only unseen names are strict prefixes of names already there (longer name first: pure node splits), then
+		// Close + New and a read of everything, the old trees included
+		var known []string
+		for _, st := range in.Stor[0].Stacks {
+			known = append(known, strings.Split(string(st.Key), ";")...)
+		}
+		switch r.Intn(3) {
+		case 0:
+			wb(2)
+		case 1:
+			in.Stor = append(in.Stor, StorStep{K: "restart"})
+		default:
+			wb(lib.Range(r, 2, 3))
+			in.Stor = append(in.Stor, StorStep{K: "evict", Cache: "dicts"})
+		}
+		var ss []treeu.Stack
+		for i := lib.Range(r, 1, 2); i > 0; i-- {
+			var parts []string
+			for j := lib.Range(r, 1, 3); j > 0; j-- {
+				k := lib.Pick(r, known)
+				if len(k) > 1 && (j == 1 || r.Intn(2) == 0) {
+					k = k[:lib.Range(r, 1, len(k)-1)] // strict, non-empty prefix
+				}
+				parts = append(parts, k)
+			}
+			ss = append(ss, treeu.Stack{Key: []byte(strings.Join(parts, ";")), V: uint64(lib.Range(r, 1, 9))})
+		}
+		in.Stor = append(in.Stor, StorStep{K: "put", Stacks: ss, PrefixOnly: true})
+		return in
+	}
 	for i := lib.Range(r, 1, 3); i > 0; i-- {
 		switch r.Intn(4) {
 		case 0:
@@ -448,6 +490,33 @@ func genStor(r *rand.Rand) Input {
 			put(false)
 		}
 	}
+	return in
+}
+
+// names starting with EVERY byte value: the root ends up with 256 children; save/reload at 255 and at 256
+func genAllBytes(r *rand.Rand) Input {
+	in := Input{Reuse: r.Intn(2) == 0}
+	perm := r.Perm(256)
+	mk := func(b int) []byte {
+		switch r.Intn(3) {
+		case 0:
+			return []byte{byte(b)}
+		case 1:
+			return []byte{byte(b), byte(r.Intn(256))}
+		default:
+			return []byte{byte(b), 'x', byte(r.Intn(3))}
+		}
+	}
+	var first [][]byte
+	for _, b := range perm[:255] {
+		first = append(first, mk(b))
+	}
+	in.Ops = append(in.Ops, Op{K: "puts", Ns: first}, Op{K: "reload"}, Op{K: "put", D: mk(perm[255])}, Op{K: "reload"})
+	var more [][]byte
+	for i := lib.Range(r, 3, 10); i > 0; i-- {
+		more = append(more, []byte{byte(r.Intn(256)), byte(r.Intn(256)), byte(r.Intn(4))})
+	}
+	in.Ops = append(in.Ops, Op{K: "puts", Ns: more}, Op{K: "reload"})
 	return in
 }
 
@@ -577,8 +646,11 @@ func gen(r *rand.Rand, idx int, tier string) Input {
 	if idx%150 == 75 {
 		return genDeep(r)
 	}
-	if idx%60 == 30 {
+	if idx%30 == 15 {
 		return genStor(r)
+	}
+	if idx%150 == 25 {
+		return genAllBytes(r)
 	}
 	var in Input
 	in.Reuse = r.Intn(2) == 0
